@@ -40,12 +40,12 @@ pub fn matches(predicate: &str, v: &Viol) -> bool {
         // C09: the dependency's string input accepts an empty-suffix `!!` tag that its buffered input rejects
         "c09_empty_suffix_secondary_tag" => {
             // (the same disagreement seen through any clause that compares string with reader input)
-            (matches!(v.clause.as_str(), "reader-disagrees" | "closure-helper-disagrees" | "spanned-locations-disagree" | "tight-budget-disagrees" | "error-span-disagrees" | "interrupted-read-changes-result"))
+            (matches!(v.clause.as_str(), "reader-disagrees" | "closure-helper-disagrees" | "spanned-locations-disagree" | "tight-budget-disagrees" | "error-span-disagrees" | "interrupted-read-changes-result" | "validating-entry-disagrees"))
                 && doc_text(&v.case).map(|s| has_empty_suffix_secondary_tag(&s)).unwrap_or(false)
         }
         // C09: NUL inside a %directive ends the directive for reader input only (consequence of the F04 repair)
         "c09_nul_in_directive" => {
-            (matches!(v.clause.as_str(), "reader-disagrees" | "closure-helper-disagrees" | "spanned-locations-disagree" | "tight-budget-disagrees" | "error-span-disagrees" | "interrupted-read-changes-result"))
+            (matches!(v.clause.as_str(), "reader-disagrees" | "closure-helper-disagrees" | "spanned-locations-disagree" | "tight-budget-disagrees" | "error-span-disagrees" | "interrupted-read-changes-result" | "validating-entry-disagrees"))
                 && doc_text(&v.case).map(|s| has_nul_in_directive(&s)).unwrap_or(false)
         }
         // C07: under per-document enforcement the alias/anchor ratio is evaluated once, at the end of the
